@@ -14,7 +14,7 @@ import logging
 
 import kopf
 import vkopf
-from vkopf.driver_api import Ob
+from vkopf.driver_api import Ob, split
 from vkopf.symloop import Deadlock, Diverged, Livelock, cancel_all_others
 from vkopf.world import World, base_body, FIN, LHC, PLURAL
 
@@ -142,6 +142,7 @@ def h_step(deleting: bool, has_fin: bool, match: bool, kind: int, outcome: int, 
     """
     vkopf.begin_path()
     c = vkopf.cell()
+    deleting, kind, with_daemon = vkopf.pin('deleting', deleting), vkopf.pin('kind', kind), vkopf.pin('with_daemon', with_daemon)
     if 'with_daemon' in c and with_daemon != c['with_daemon']:
         return True
     try:
@@ -258,6 +259,7 @@ def h_history(s0: int, s1: int, s2: int, conflict_at: int, fail_first: bool) -> 
     """
     vkopf.begin_path()
     n = vkopf.cell('n', 2)
+    s0, s1 = vkopf.pin('s0', s0), vkopf.pin('s1', s1)
     steps = [s0, s1, s2][:n]
     try:
         w, snaps = run_history(steps, conflict_at, fail_first)
@@ -303,9 +305,14 @@ def h_history(s0: int, s1: int, s2: int, conflict_at: int, fail_first: bool) -> 
 
 
 def obligations():
-    obs = [Ob('h_list_ops', {}, timeout=900, twins=['added', 'removed']),
-           Ob('h_step', {'with_daemon': False}, timeout=3000, path_timeout=200, twins=['released', 'held', 'blocked']),
-           Ob('h_step', {'with_daemon': True}, timeout=3000, path_timeout=200, tiers=('quick', 'thorough'), twins=['held']),
-           Ob('h_history', {'n': 2}, timeout=3400, path_timeout=300, tiers=('thorough',), twins=['conflict', 'released']),
-           Ob('h_history', {'n': 1}, timeout=3000, path_timeout=300, twins=['conflict'])]
+    B = [False, True]
+    obs = [Ob('h_list_ops', {}, timeout=900, twins=['added', 'removed'])]
+    for (deleting, kind, wd) in ((True, 1, False), (True, 2, False), (False, 1, False), (True, 0, True), (True, 1, True), (False, 0, True)):
+        obs.append(Ob('h_step', {'pin': {'deleting': deleting, 'kind': kind, 'with_daemon': wd}}, tiers=('quick',), timeout=900, path_timeout=200))
+    obs.append(Ob('h_step', {}, tiers=('quick', 'thorough'), timeout=600, path_timeout=200, twins=['released', 'held', 'blocked'], main=False))
+    obs += split(Ob('h_step', {}, tiers=('thorough',), timeout=1500, path_timeout=200), deleting=B, kind=[0, 1, 2], with_daemon=B)
+    obs += split(Ob('h_history', {'n': 1}, timeout=900, path_timeout=300, twins=['conflict']), s0=[0, 1, 3])
+    obs.append(Ob('h_history', {'n': 2, 'pin': {'s0': 2, 's1': 0}}, tiers=('quick',), timeout=900, path_timeout=300))
+    obs += split(Ob('h_history', {'n': 2}, timeout=3000, path_timeout=300, tiers=('thorough',), twins=['conflict', 'released']),
+                 s0=[0, 1, 2, 3, 4], s1=[0, 1, 2, 3, 4])
     return obs
